@@ -213,6 +213,27 @@ def run(chk):
                        "replay_cmd": "/verif/.cache/target/release/constraints dist --seed %d --n %d | grep '^%s '" % (chk.seed, nd, " ".join(dist_fail[0].split()[:2])),
                        "broken": chk.broken})
 
+    # ---- tracker-level half (Props/C20T.v + oracles on the real Sort/BatchSort; tools/props/tracker_common.py) ----
+    own_cov = dict(chk.coverage)
+    try:
+        from props import tracker_common
+        tracker_common.c20t_run(chk, pid="C20T")
+        t_cov = dict(chk.coverage)
+        merged = dict(t_cov)
+        merged.update(own_cov)
+        for k in ("obligations", "discharged"):
+            merged[k] = own_cov.get(k, 0) + t_cov.get(k, 0)
+        merged["theorems"] = (own_cov.get("theorems") or []) + (t_cov.get("theorems") or [])
+        merged["cone_files"] = sorted(set((own_cov.get("cone_files") or []) + (t_cov.get("cone_files") or [])))
+        merged["checker_cmd"] = own_cov.get("checker_cmd", "") + " ; and the same for theories/Props/C20T.vo"
+        merged["tracker_level"] = {k: v for k, v in t_cov.items() if k not in own_cov and k not in ("theorems", "cone_files", "trusted_base")}
+        chk.coverage.clear()
+        chk.coverage.update(merged)
+    except Exception as e:   # the tracker half must never hide the table half
+        import traceback
+        chk.broken.append("C20T stage failed: %s" % traceback.format_exc()[-1500:])
+        chk.coverage.update(own_cov)
+
     # ---- verdict -----------------------------------------------------------------------------
     if oracle_fail:
         # a concrete failing input against the property text, on the real code
